@@ -48,9 +48,20 @@ SELF = "=SELF"      # an alias that is the module's own (rendered) name: renames
 
 def _aliases(rng, mods, allow_self=False):
     texts = rng.sample(ALIAS_TEXTS, min(len(mods), len(ALIAS_TEXTS)))
+    out = [{"mod": list(m), "text": t} for m, t in zip(mods, texts)]
     if allow_self:
-        texts = [SELF if rng.random() < 0.25 else t for t in texts]
-    return [{"mod": list(m), "text": t} for m, t in zip(mods, texts)]
+        for a in out:
+            roll = rng.random()
+            if roll < 0.2:
+                a["text"] = SELF
+            elif roll < 0.4 and len(mods) > 1:
+                # the alias text is the NAME OF ANOTHER aliased module (or that name plus a component): an alias is
+                # applied once, to the module's own name - never to a label that another alias produced
+                other = rng.choice([m for m in mods if list(m) != a["mod"]])
+                a["text"] = "=NAMEOF"
+                a["of"] = list(other)
+                a["suffix"] = rng.choice(["", "", ".cs"])
+    return out
 
 
 def viz_items(rng, alias_mods, k0=0, with_rename=False, render=None):
